@@ -95,6 +95,64 @@ type DetachableObject interface {
 	Delete(obj Object) Object
 }
 
+// copyObject returns a deep copy of the mutable objects, the immutable ones
+// (and the TRUE, FALSE and UNDEFINED globals) are returned as they are
+func copyObject(obj Object) Object {
+	switch o := obj.(type) {
+	case *Number:
+		return &Number{Value: o.Value}
+	case *Binary:
+		return &Binary{Value: append([]byte{}, o.Value...)}
+	case *Map:
+		m := &Map{Value: make(map[string]Object, len(o.Value))}
+
+		for k, v := range o.Value {
+			m.Value[k] = copyObject(v)
+		}
+
+		return m
+	case *List:
+		l := &List{Value: make([]Object, 0, len(o.Value))}
+
+		for _, v := range o.Value {
+			// skip the elements removed from a list that is not compacted yet
+			if v == nil {
+				continue
+			}
+
+			l.Value = append(l.Value, copyObject(v))
+		}
+
+		return l
+	case *StringSet:
+		ss := &StringSet{Value: make(map[string]bool, len(o.Value))}
+
+		for k, v := range o.Value {
+			ss.Value[k] = v
+		}
+
+		return ss
+	case *NumberSet:
+		ns := &NumberSet{Value: make(map[float64]bool, len(o.Value))}
+
+		for k, v := range o.Value {
+			ns.Value[k] = v
+		}
+
+		return ns
+	case *BinarySet:
+		bs := &BinarySet{Value: make([][]byte, 0, len(o.Value))}
+
+		for _, v := range o.Value {
+			bs.Value = append(bs.Value, append([]byte{}, v...))
+		}
+
+		return bs
+	}
+
+	return obj
+}
+
 // Number is the representation of numbers
 type Number struct {
 	Value float64
